@@ -149,7 +149,6 @@ pub fn main(args: &Args) -> i32 {
                         let lat0 = latest_of(rn.sut, c);
                         let sn0 = snapv_of(rn.sut, c);
                         rn.opidx = j;
-                        let fault_line = format!("fault {}", fails.iter().map(|(i, k)| format!("{i} {}", if *k == Kind::Before { "before" } else { "after" })).collect::<Vec<_>>().join(" "));
                         // run the operation through the ordinary executor, capturing its lines so that the
                         // drawn id of a committed-but-unacknowledged version can be filled in afterwards
                         let mut buf: Vec<u8> = vec![];
@@ -168,9 +167,18 @@ pub fn main(args: &Args) -> i32 {
                                 rn.dead = true;
                             }
                         }
-                        let (consumed, names) = {
+                        let (consumed, names, fault_line) = {
                             let p = plan.lock().unwrap();
-                            (p.consumed, p.names.join(","))
+                            // a fault is identified by the call it hit (name and occurrence within the request), so that the
+                            // model injects it at the same call even when its own sequence of reads differs
+                            let ident = |i: usize| -> String {
+                                match p.names.get(i) {
+                                    Some(n) => format!(" {n}#{}", p.names[..=i].iter().filter(|x| *x == n).count()),
+                                    None => String::new(),
+                                }
+                            };
+                            let fl = format!("fault {}", fails.iter().map(|(i, k)| format!("{i} {}{}", if *k == Kind::Before { "before" } else { "after" }, ident(*i))).collect::<Vec<_>>().join(" "));
+                            (p.consumed, p.names.join(","), fl)
                         };
                         {
                             // disarm for the harness's own reads
